@@ -137,17 +137,18 @@ theorem typed_decoders_no_panic (S : Schema) (h : S.decodeSafe = true) (fuel : N
   ⟨t.decK, t.decStruct, t.decList, t.decFields, t.decOpt, t.decDyn, t.decCustom, t.decKeyValue⟩
 
 /-- 6. `UnmarshalTTLV(bs, new(T))` / `dec.TagAny(tag, new(T))` never panics: for EVERY byte string, every
-    tag and every target type `d` of the schema. -/
-theorem typed_no_panic (S : Schema) (h : S.decodeSafe = true) (d tag : Nat) (bs : Bytes)
-    (hd : d < S.dyns.length) : ∀ msg, unmarshal S d tag bs ≠ .panic msg :=
-  unmarshal_noPanic S h d tag bs hd
+    tag and every target type id `d` (an id that denotes no type of the schema is an error of the model's
+    entry point, not a panic). -/
+theorem typed_no_panic (S : Schema) (h : S.decodeSafe = true) (d tag : Nat) (bs : Bytes) :
+    ∀ msg, unmarshal S d tag bs ≠ .panic msg :=
+  unmarshal_noPanic S h d tag bs
 
-/-- the statement without `d < S.dyns.length`. It is FALSE of the model, for a reason that has no
-    counterpart in Go: `Schema.dyn` totalises an out-of-range type id to the kind `.unsupported`, whose
-    decoder is the panic branch. (`typed_no_panic` covers every type id that denotes a type.) -/
-def typed_no_panic_full : Prop :=
-  ∀ (S : Schema), S.decodeSafe = true → ∀ (d tag : Nat) (bs : Bytes) (msg : String),
-    unmarshal S d tag bs ≠ .panic msg
+/-- 6'. the same, fully quantified (formerly false of the model because `Schema.dyn` totalises an
+    out-of-range type id to the kind `.unsupported`; `unmarshal` now rejects such ids). -/
+theorem typed_no_panic_full :
+    ∀ (S : Schema), S.decodeSafe = true → ∀ (d tag : Nat) (bs : Bytes) (msg : String),
+      unmarshal S d tag bs ≠ .panic msg :=
+  fun S h d tag bs msg => typed_no_panic S h d tag bs msg
 
 /-- smallest safe schema: one dynamic type, `ttlv.Value`. -/
 def tiny : Schema where
@@ -159,12 +160,10 @@ def tiny : Schema where
   unknownPayloadDyn := 0
   valueDyn := 0
 
-theorem typed_no_panic_full_false : ¬ typed_no_panic_full := by
-  intro h
-  have hp : (unmarshal tiny 1 0 [0x42, 0, 1, 2, 0, 0, 0, 4, 0, 0, 0, 7, 0, 0, 0, 0]).isPanic = true := by
-    decide +kernel
-  obtain ⟨m, hm⟩ := (Res.isPanic_iff _).1 hp
-  exact h tiny (by decide +kernel) 1 0 _ m hm
+/-- a type id outside the schema: an error, not a panic (`tiny` is safe: the hypothesis is satisfiable). -/
+example : tiny.decodeSafe = true ∧
+    (unmarshal tiny 1 0 [0x42, 0, 1, 2, 0, 0, 0, 4, 0, 0, 0, 7, 0, 0, 0, 0]).isErr = true := by
+  decide +kernel
 
 /-- 7. the schema extracted from the current Go types satisfies the condition (re-checked by the kernel
     every time `Gen/Schema.lean` is regenerated). -/
@@ -172,13 +171,13 @@ theorem gen_schema_decodeSafe : Gen.schema.decodeSafe = true := by decide +kerne
 
 /-- 8. hence decoding arbitrary bytes into any of the library's message / payload / object / attribute
     types never panics. -/
-theorem gen_typed_no_panic (d tag : Nat) (bs : Bytes) (hd : d < Gen.schema.dyns.length) :
+theorem gen_typed_no_panic (d tag : Nat) (bs : Bytes) :
     ∀ msg, unmarshal Gen.schema d tag bs ≠ .panic msg :=
-  typed_no_panic Gen.schema gen_schema_decodeSafe d tag bs hd
+  typed_no_panic Gen.schema gen_schema_decodeSafe d tag bs
 
 /-! ### non-vacuity (typed layer) -/
 
-/-- the hypotheses are satisfiable: 95 target types. -/
+/-- 95 target types. -/
 example : Gen.requestMessageDyn < Gen.schema.dyns.length ∧ Gen.schema.dyns.length = 95 := by
   decide +kernel
 
